@@ -34,7 +34,9 @@ where
         // First up, try to spawn off as many futures as possible by filling up
         // our queue of futures.
         let ordered = this.in_progress_queue;
-        while ordered.in_progress_queue.tasks.len() < ordered.in_progress_queue.tasks.capacity() {
+        // count the finished outputs that wait for an earlier future too, or a stalled
+        // head-of-line future lets the backlog of results grow without bound
+        while ordered.len() < ordered.in_progress_queue.tasks.capacity() {
             if let Some(s) = this.stream.as_mut().as_pin_mut() {
                 match s.poll_next(cx) {
                     Poll::Ready(Some(fut)) => {
